@@ -68,6 +68,10 @@ class Factory:
             from spsdk.image.fcb.fcb import FCB
             tag = FCB.TAG_SWAPPED if p[3] == "1" else FCB.TAG
             return tag + prbytes(spec, int(p[1]) - len(tag))
+        if kind == "fcbdef":  # fcbdef:<memory type>: the FCB class's own default block for the family
+            from spsdk.image.fcb.fcb import FCB
+            from spsdk.image.mem_type import MemoryType
+            return FCB(family, MemoryType.from_label(p[1]), revision).export()
         if kind == "xmcd":  # xmcd:<relative path under tests/nxpimage/data/xmcd>
             with open(os.path.join(TESTDATA, "xmcd", p[1]), "rb") as fh:
                 return fh.read()
@@ -269,6 +273,8 @@ def header_spec(T, row, segs, i, rng, sizes):
     size = kd["size"]
     salt = rng.randrange(1000)
     if kd["parser"] == "SegmentFcb":
+        if row["fcb_supported"] and salt % 3 == 0:
+            return f"fcbdef:{row['mem_type']}"
         return f"fcb:{size}:{salt}:{rng.randrange(2)}"   # a valid FCB block has exactly SIZE bytes
     if kd["parser"] == "SegmentXmcd":
         fam = "rt7xx" if row["family"].startswith("mimxrt7") else "rt118x"
@@ -292,7 +298,7 @@ def gen_cases(T, row, rng, quick):
         masks = sorted(masks, reverse=True)
     else:
         masks = list(range((1 << n) - 1, -1, -1))
-        masks = masks + masks[1:]   # every subset twice (the second time with another size class / container variant)
+        masks = masks * 4   # every subset four times (later passes with other size classes / container variants)
     statics = [off for _, off in segs if off is not None]
     out = []
     for mi, mask in enumerate(masks):
